@@ -98,6 +98,18 @@ def cases(tier):
         vg = values.ValueGen(U, special_floats=False, poly=True, nil_items=True)
         arg = draw(vg.value(t).filter(lambda v: v is not None))
         ret = draw(vg.value(t).filter(lambda v: v is not None))
+        if draw(st.integers(0, 4)) == 0:
+            # a subclass instance WITHOUT any member set (an empty element / empty map that
+            # still has to carry its type marker)
+            subs = [c["name"] for c in cs if c["name"] != base and vg.subclasses(base).count(c["name"])]
+            ok = [n for n in subs if all((ft.get("occ") or {}).get("min", 0) == 0 for _, ft in vg.all_fields(n))]
+            if ok:
+                empty = {"$obj": draw(st.sampled_from(ok)), "f": {}}
+                if isinstance(arg, list):
+                    arg = [empty] + arg[1:]
+                    ret = [empty] + ret[1:] if isinstance(ret, list) else ret
+                else:
+                    arg, ret = empty, dict(empty)
         return {"U": U, "m": m, "args": [arg], "rets": [ret], "prot": prot, "poly": poly,
                 "late": late,
                 "validator": None, "variant": 0}
